@@ -5,6 +5,7 @@ package ops
 import (
 	"context"
 	"fmt"
+	"strings"
 
 	"gorm.io/gorm"
 	"gorm.io/gorm/clause"
@@ -24,6 +25,7 @@ type WOp struct {
 	Target    uint           `json:"target,omitempty"`
 	Unscoped  bool           `json:"unscoped,omitempty"`
 	SessBatch int            `json:"session_batch_size,omitempty"` // create_slice / create_ptr_slice: Session{CreateBatchSize} routes Create through CreateInBatches
+	Returning bool           `json:"returning_all,omitempty"`      // create kinds: Clauses(clause.Returning{}), i.e. RETURNING *
 	ScopeSess bool           `json:"scope_session,omitempty"`      // the operation carries a scope that returns a WithContext handle
 	Share     bool           `json:"share,omitempty"`              // records with the same non-zero key are one in-memory record shared by several parents
 	Str       string         `json:"str,omitempty"`
@@ -57,6 +59,9 @@ func (op *WOp) session(db *gorm.DB) *gorm.DB {
 	}
 	if op.SessBatch > 0 {
 		db = db.Session(&gorm.Session{CreateBatchSize: op.SessBatch})
+	}
+	if op.Returning && strings.HasPrefix(op.Kind, "create") {
+		db = db.Clauses(clause.Returning{})
 	}
 	if op.FullSave || op.SkipHooks {
 		return db.Session(&gorm.Session{FullSaveAssociations: op.FullSave, SkipHooks: op.SkipHooks})
@@ -204,6 +209,7 @@ func GenWOp(r *core.Rand, kinds []string) WOp {
 	op.Target = uint(1 + r.Intn(fam.FixUsers))
 	op.FullSave = r.Chance(25)
 	op.ScopeSess = r.Chance(8)
+	op.Returning = r.Chance(10)
 	switch op.Kind {
 	case "create", "save", "updates_assoc", "updates_self":
 		op.Users = []fam.UserSpec{g.User(1)}
@@ -306,6 +312,11 @@ func ShrinkWOp(op WOp) []WOp {
 	if op.ScopeSess {
 		v := op
 		v.ScopeSess = false
+		out = append(out, v)
+	}
+	if op.Returning {
+		v := op
+		v.Returning = false
 		out = append(out, v)
 	}
 	return out
